@@ -42,6 +42,7 @@ OwnKeys(r, l) == SelectSeq(l, LAMBDA x : \A f \in Range(r.foreign) : \A n \in 0.
 SnapClass(r) ==
   IF r.tready # r.uready THEN "typed-readiness-differs"
   ELSE IF r.tdone # r.udone THEN "typed-lifecycle-differs"
+  ELSE IF r.tlisterr # r.ulisterr THEN "typed-list-error-differs"
   ELSE IF ~r.quiet THEN ""
   ELSE IF r.foreign_get # "absent" THEN "typed-returns-foreign-object"
   ELSE IF \E j \in DOMAIN r.tev : r.tev[j][2] = "<nil>" THEN "typed-nil-event"
